@@ -139,3 +139,27 @@ Proof. repeat split; vm_compute; reflexivity. Qed.
 Example C14_varlen_widths :
   map (fun n => List.length (enc_varlen n)) [0; 127; 128; 16383; 16384; 2 ^ 32 - 1] = [1; 1; 2; 2; 3; 5]%nat.
 Proof. vm_compute. reflexivity. Qed.
+
+(* ---------------------------------------------------------------------------------------------------------------
+   Tie to the source of the two readers every container, string and opaque value goes through.  readOffsetOrSize
+   (2- or 4-byte counts, sizes and offsets of the small / large storage format) and readVariableLength (the length
+   prefix of strings and opaque values) are translated from binlog_event_json.go by gotrans on every run
+   (gen/TransJsonRead.v); the theorems say the translations compute read_off and read_varlen, the functions
+   C14_json_faithful and C14_varlen_roundtrip are about - on every input, at every position, well-formed or not
+   (same value and next position, or both panic).  Premises: the data are bytes; positions and lengths are below 2^62;
+   the fuel of the translated loop exceeds the number of bytes. *)
+From GB Require Base.GoSem Proofs.TransTactics Proofs.TransEquivJsonRead.
+From GBGen Require TransJsonRead.
+Theorem C14_tie_readOffsetOrSize : forall d pos large,
+  wf_bytes d -> Z.of_nat pos < 2 ^ 62 ->
+  GoSem.res_sim (TransJsonRead.readOffsetOrSize_g d (Z.of_nat pos) large)
+                (TransTactics.res_map TransEquivJsonRead.val_pos (read_off d pos large)).
+Proof. exact TransEquivJsonRead.readOffsetOrSize_equiv. Qed.
+Print Assumptions C14_tie_readOffsetOrSize.
+
+Theorem C14_tie_readVariableLength : forall fuel d pos,
+  Z.of_nat (List.length d) < 2 ^ 62 -> (List.length d < fuel)%nat ->
+  GoSem.res_sim (TransJsonRead.readVariableLength_g fuel d (Z.of_nat pos))
+                (TransTactics.res_map TransEquivJsonRead.val_pos (read_varlen d pos)).
+Proof. exact TransEquivJsonRead.readVariableLength_equiv. Qed.
+Print Assumptions C14_tie_readVariableLength.
